@@ -20,10 +20,10 @@ def parse_tsv(text):
 
 
 def fresh_locks():
-    """a new process has new lock objects (module level locks are created at import)"""
-    for name in ("filelock", "inevalfilelock"):
-        if hasattr(pa_mod, name):
-            setattr(pa_mod, name, seams._lock_factory())
+    """a new process has new, unheld lock objects (module level locks are created at import)"""
+    from . import sched
+
+    sched.reset_locks()
 
 
 def run_exit_handlers():
